@@ -440,4 +440,93 @@ theorem members_updateNss (puid : Uid) (lsh osh : SetHdr) (sib : List Key) (lite
       · obtain ⟨bk, hb⟩ := hs.2 o h2
         exact Or.inr (Or.inr ⟨o, bk, pr, hb, h3⟩)
 
+/-! ### a set without namesakes in the copy (lists: generated names are fresh per list object) -/
+
+def slotUid : Slot → Uid
+  | .keep _ n => n.hdr.uid
+  | .add o => o.hdr.uid
+
+def isAdd : Slot → Bool
+  | .add _ => true
+  | .keep _ _ => false
+
+/-- loop 3 on slots that are all additions: without an error the adopted objects are those of the slots, in their order -/
+theorem resolve_all_add (puid : Uid) (lsh osh : SetHdr) (sib rm : List Key) :
+    ∀ (slots : List Slot) (cur : List Key), slots.all isAdd = true →
+      (resolve puid lsh osh sib rm cur slots).2 = none →
+      (resolve puid lsh osh sib rm cur slots).1.map (fun p => p.2.hdr.uid) = slots.map slotUid
+  | [], _, _, _ => by simp [resolve]
+  | .keep k n :: r, cur, h, _ => by simp [isAdd] at h
+  | .add o :: r, cur, h, he => by
+    have hr : r.all isAdd = true := by simpa [isAdd] using h
+    unfold resolve at he ⊢
+    cases ha : adopt puid lsh osh (cur ++ sib) o with
+    | error e => simp [ha] at he
+    | ok p =>
+      obtain ⟨k, o'⟩ := p
+      simp only [ha] at he ⊢
+      have ih := resolve_all_add puid lsh osh sib rm r (k :: cur) hr he
+      simp [slotUid, (adopt_ok ha).1, ih]
+
+
+/-- loop 1 when no object of `other` has a namesake in the live set: every object becomes an addition, in `other`'s order -/
+theorem matchLoop_disjoint (lsh : SetHdr) (litems : Items) : ∀ (oitems : Items),
+    (∀ p ∈ oitems, p.2.hdr.kind ≠ Kind.other ∧ AList.get p.2.hdr.key litems = none) →
+    matchLoop lsh litems oitems = ⟨oitems.map (fun p => Slot.add p.2), [], [], none⟩ := by
+  intro oitems
+  induction oitems with
+  | nil => intro _; simp [matchLoop]
+  | cons hd rest ih =>
+    intro h
+    obtain ⟨bk, o⟩ := hd
+    have ho := h (bk, o) (List.mem_cons_self ..)
+    have ihr := ih (fun p hp => h p (List.mem_cons_of_mem _ hp))
+    simp only [matchLoop, ihr, matchStep, addSlot, List.map_cons]
+    simp [ho.1, ho.2]
+
+
+theorem applyKeeps_adds (l : Items) (os : Items) : applyKeeps l (os.map (fun p => Slot.add p.2)) = l := by
+  induction os with
+  | nil => rfl
+  | cons p r ih => simpa [applyKeeps] using ih
+
+theorem all_isAdd_adds (os : Items) : (os.map (fun p => Slot.add p.2)).all isAdd = true := by
+  induction os with
+  | nil => rfl
+  | cons p r ih => simpa [isAdd] using ih
+
+theorem slotUid_adds (os : Items) : (os.map (fun p => Slot.add p.2)).map slotUid = os.map (fun p => p.2.hdr.uid) := by
+  induction os with
+  | nil => rfl
+  | cons p r ih => simp [slotUid]
+
+/-- **A set none of whose members has a namesake in the copy is replaced by the copy's members, in the copy's order.**
+    (The case of a `SubmodelElementList`: its items are filed under generated names, fresh per list object.) -/
+theorem updateNss_disjoint_order (puid : Uid) (lsh osh : SetHdr) (sib : List Key) (litems oitems : Items)
+    (hd : ∀ p ∈ oitems, p.2.hdr.kind ≠ Kind.other ∧ AList.get p.2.hdr.key litems = none)
+    (hattr : lsh.keyAttr = osh.keyAttr)
+    (hkeys : ∀ k ∈ AList.keys litems, k ∉ AList.keys oitems)
+    (he : (updateNss puid lsh osh sib litems oitems).err = none) :
+    (updateNss puid lsh osh sib litems oitems).items.map (fun p => p.2.hdr.uid) = oitems.map (fun p => p.2.hdr.uid) := by
+  unfold updateNss finishSet at he ⊢
+  rw [matchLoop_disjoint lsh litems oitems hd] at he ⊢
+  simp only [applyKeeps_adds, hattr, if_true, List.nil_append] at he ⊢
+  have hrm : (AList.keys litems).filter (fun k => k ∉ AList.keys oitems) = AList.keys litems := by
+    apply List.filter_eq_self.2
+    intro k hk; simpa using hkeys k hk
+  simp only [hrm] at he ⊢
+  have hstay : litems.filter (fun p => p.1 ∉ AList.keys litems ∧
+      p.1 ∉ keepKeys (oitems.map (fun p => Slot.add p.2))) = [] := by
+    apply List.filter_eq_nil_iff.2
+    intro p hp
+    have : p.1 ∈ AList.keys litems := by
+      simp only [AList.keys]; exact List.mem_map_of_mem hp
+    simp [this]
+  have hcur : (AList.keys litems).filter (fun k => k ∉ AList.keys litems) = [] := by
+    apply List.filter_eq_nil_iff.2
+    intro k hk; simp [hk]
+  simp only [hstay, hcur, List.nil_append] at he ⊢
+  rw [resolve_all_add puid lsh osh sib _ _ [] (all_isAdd_adds oitems) he, slotUid_adds]
+
+
 end Basyx.Update
